@@ -63,6 +63,31 @@ Definition bal_same_except (a b : State) (except : list string) : bool :=
 Definition payers (pre post : State) : list string :=
   map fst (filter (fun kv => balance post kv.1 <? kv.2) (map_to_list (bal pre))).
 
+(** C05: an order on which storage never started (no shard ever completed) that disappears takes
+    all its shards with it, and exactly its payment leaves the order escrow *)
+Definition never_started (pre : State) (oid : Z) (o : Order) : bool :=
+  ((o_status o =? OrderPending) || (o_status o =? OrderDataReady)) && negb (o_op o =? 3) &&
+  forallb (fun ks => negb ((sh_order ks.2 =? oid) && (sh_status ks.2 =? ShardCompleted))) (map_to_list (shards pre)).
+Definition rolled_back_orders (pre post : State) : list (Z * Order) :=
+  filter (fun kv => never_started pre kv.1 kv.2 && negb (bool_decide (is_Some (orders post !! kv.1)))) (map_to_list (orders pre)).
+Definition mon_rollback_clean (pre post : State) : bool :=
+  forallb (fun kv =>
+     forallb (fun ks => negb (sh_order ks.2 =? kv.1) || negb (bool_decide (is_Some (shards post !! ks.1)))) (map_to_list (shards pre)))
+   (rolled_back_orders pre post).
+Definition mon_rollback_refund (pre post : State) : bool :=
+  balance pre (macc ORDER) - balance post (macc ORDER) =?
+  fold_right (fun kv acc => o_amount kv.2 + acc) 0 (rolled_back_orders pre post).
+Definition rollback_monitors (money : bool) (pre post : State) : list (string * bool) :=
+  [ ("rollback.clean", mon_rollback_clean pre post);
+    ("rollback.refund_exact", negb money || mon_rollback_refund pre post) ].
+
+(** C08: over [n] consecutive blocks at most n times the subsidy of the halving age at their start is minted *)
+Definition mon_mint_cap (n : Z) (pre post : State) : bool :=
+  match pool pre with
+  | Some po => if po_reward po <? TOTAL_REWARD then supply post - supply pre <=? n * subsidy_cap pre else true
+  | None => supply post =? supply pre
+  end.
+
 Definition op_monitors (cx : Ctx) (pre : State) (op : Op) (accepted : bool) (post : State) : list (string * bool) :=
   (* frames that hold for every operation, accepted or not *)
   [ ("frame.models", touches_models op || models_same pre post);
@@ -74,6 +99,9 @@ Definition op_monitors (cx : Ctx) (pre : State) (op : Op) (accepted : bool) (pos
                                             (filter (fun kv => negb (str_prefix "node.Fault" kv.1 || String.eqb kv.1 "node.FishingReward")) (enc_state post))))
                      | _ => faults_same pre post end);
     ("frame.supply", match op with OBeginBlock => supply pre <=? supply post | _ => supply pre =? supply post end);
+    ("rollback.clean", mon_rollback_clean pre post);
+    ("rollback.refund_exact", match op with OCancel _ _ _ | OEndBlock _ => mon_rollback_refund pre post | _ => true end);
+    ("mint.within_age_cap", match op with OBeginBlock => mon_mint_cap 1 pre post | _ => true end);
     ("frame.rejected_unchanged", negb (is_tx op) || accepted ||
          value_eqb (VL (map snd (enc_state (pre <| pg := pg post |>)))) (VL (map snd (enc_state post)))) ] ++
   match op with
